@@ -333,6 +333,60 @@ func discharge(results []*ProofResult, timeoutS int, all bool, verbose bool) {
 	}
 	close(ch)
 	wg.Wait()
+	// Second chance, without contention: an obligation that only ran out of time (no model) while 24
+	// solver processes competed for the cores is retried with a longer limit, two at a time. A goal
+	// that is really violated keeps failing (sat, or unknown again), so this only removes load-induced
+	// timeouts on the unchanged tree.
+	var retry []job
+	for _, j := range jobs {
+		if !j.o.IsCover && (j.o.Status == "timeout" || j.o.Status == "unknown") {
+			retry = append(retry, j)
+		}
+	}
+	if len(retry) > 0 && len(retry) <= 40 {
+		ch2 := make(chan job)
+		var wg2 sync.WaitGroup
+		for i := 0; i < 2; i++ {
+			wg2.Add(1)
+			go func() {
+				defer wg2.Done()
+				for j := range ch2 {
+					cands := []*Obligation{j.o}
+					if len(j.o.Parts) > 0 {
+						cands = j.o.Parts
+					}
+					ok := true
+					var ms int64
+					solver := ""
+					for _, c := range cands {
+						var b solveResult
+						if c.ScriptQF != "" {
+							b, _, _ = solveRace(c.ScriptQF, 3*timeoutS, false)
+						}
+						if b.Status != "unsat" {
+							b, _, _ = solveRace(c.Script, 3*timeoutS, false)
+						}
+						ms += b.Millis
+						solver = b.Solver
+						if b.Status != "unsat" {
+							ok = false
+							break
+						}
+					}
+					if ok {
+						j.o.Status = "unsat"
+						j.o.Solver = solver + "(retry)"
+						j.o.Millis += ms
+					}
+				}
+			}()
+		}
+		for _, j := range retry {
+			ch2 <- j
+		}
+		close(ch2)
+		wg2.Wait()
+	}
 }
 
 // solveStaged first tries the goal with quantifier-free assumptions only (a subset of the assumptions, so
@@ -450,9 +504,10 @@ func cmdProve(args []string) {
 					}
 				}
 			}
-			if *dump != "" && o.Name == *dump && (!ok || !dumped) {
+			if *dump != "" && o.Name == *dump && (!ok || !dumped || os.Getenv("GOVC_DUMP_LAST") != "") {
 				dumped = true
 				os.WriteFile("/tmp/govc_dump.smt2", []byte(o.Script), 0644)
+				os.WriteFile("/tmp/govc_dump_qf.smt2", []byte(o.ScriptQF), 0644)
 				fmt.Println("   dumped to /tmp/govc_dump.smt2")
 			}
 		}
